@@ -26,10 +26,10 @@ from translate import idp_defaults, spdefaults
 
 PROP = "C09"
 LEAN_PROPS = "PysamlModel.Props.C09"
-MODEL_TARGETS = ["PysamlModel.Model.Idp", "PysamlModel.Spec.C09", "PysamlModel.Gen.IdpDefaults"]
+MODEL_TARGETS = ["PysamlModel.Model.Idp", "PysamlModel.Spec.C09", "PysamlModel.Gen.IdpDefaults", "PysamlModel.Gen.SpDefaults"]
 AUDIT = "PysamlModel/Audit/C09.lean"
 DRIVER = "Drivers/C09.lean"
-GEN = [idp_defaults.generate]
+GEN = [idp_defaults.generate, spdefaults.generate]
 PARALLEL = True
 EXHAUSTIVE = False
 CORRESPONDENCE = ("Drivers/C09.lean (Idp.create; Sp.process ∘ Idp.toSp) vs Server.create_authn_response read back by an "
@@ -48,7 +48,8 @@ TRUSTED = [
     "random identifiers (Response/Assertion ID, SessionIndex, NameID value) are fresh-value parameters; the harness replaces them by "
     "FRESH / SESSION after checking their shape",
     "virtual clock installed by harness/scenario.py; IdP and SP run under (possibly different) pinned instants",
-    "translator harness/translate/idp_defaults.py (observes defaults / allow-lists / constants on the imported saml2)",
+    "translators harness/translate/idp_defaults.py (observes defaults / allow-lists / constants on the imported saml2) and "
+    "spdefaults.py (the SP's attribute_defaults, for options a receiving SP leaves unset)",
 ]
 ASSUMPTIONS = [
     "encrypt_assertion unset (the encryption branch of Entity._response is C16); no pefim",
@@ -111,17 +112,11 @@ VALUE_POOL = ["Anna", "Åsa Öberg", "李雷", "x", "member", "staff", "anna@exa
               "urn:mace:example:entitlement:1", "+46 90 786 50 00", "多值 属性", "line1", "0", "ÿ" * 3, "éé", "A" * 40]
 USERIDS = ["user-1", "user-2", "üser 3", "a__b", "u/4?x=1"]
 
-_state = {"idp": {}, "req_sp": {}, "recv_sp": {}, "sp_defaults": None}
+_state = {"idp": {}, "req_sp": {}, "recv_sp": {}}
 
 
 def setup():
     S.install()
-    _state["sp_defaults"] = sp_defaults()
-
-
-def sp_defaults():
-    d = spdefaults.read_defaults()
-    return {k: (v is True or v == "true") for k, v in d.items()}
 
 
 # ------------------------------------------------------------------ federation / instances
@@ -315,7 +310,7 @@ def gen_idp_cfg(rng):
 
 def gen_nameid(rng, k, requester_id):
     return {"format": rng.choice(FORMATS[:4] if rng.random() < 0.9 else FORMATS),
-            "spnq": rng.choice([requester_id, requester_id, requester_id, S.SP2_ID, AFFILIATION]),
+            "spnq": rng.choice([requester_id, requester_id, requester_id, requester_id, S.SP2_ID, AFFILIATION, None]),
             "nq": rng.choice([S.IDP_ID, S.IDP_ID, None, "https://other-idp.example/idp"]),
             "text": "stored-%d" % k}
 
@@ -401,8 +396,7 @@ def gen_side(rng, cfg, a):
             "want_resp": None, "want_assert": None, "want_either": None,
             "allow_unsolicited": None if rng.random() < 0.8 else rng.random() < 0.7,
             "skew": rng.choice([None, None, 0, 60, 180]),
-            "trusts": rng.random() < 0.93,
-            "defaults": _state["sp_defaults"] or sp_defaults()}
+            "trusts": rng.random() < 0.93}
     if rng.random() < 0.65:  # compatible options
         side["want_resp"] = True if (sr and rng.random() < 0.5) else (None if sr else False)
         side["want_assert"] = (True if rng.random() < 0.5 else None) if sa else rng.choice([None, False])
